@@ -25,12 +25,13 @@ def main():
                 print('%-50s patch does not apply to the current tree: %s' % (name, p.stdout.strip().splitlines()[-1][:100]))
                 bad += 1
                 continue
-            rcs, viol = [], []
+            rcs, viol, failed = [], [], []
             for prop in props:
                 p = subprocess.run([os.path.join(ROOT, 'bin', 'check'), prop, '--tier', 'quick', '--no-evidence'], capture_output=True,
                                    text=True, cwd=ROOT, timeout=3600, env=dict(os.environ, PYVC_REPO=scratch))
                 rcs.append(p.returncode)
                 viol += [ln for ln in p.stdout.splitlines() if ln.startswith('VIOLATION')]
+                failed += [ln[:400] for ln in p.stdout.splitlines() if ln.startswith(('failed obligation', 'undecided obligations'))]
                 if p.returncode == 1:
                     break
         finally:
@@ -40,6 +41,13 @@ def main():
         print('%-50s rc=%s %s %s' % (name, rcs, ('caught' if ok else 'MISSED') if valid else ('(not a violation any more) ' + ('alarm!' if ok else 'silent')),
                                      viol[0][:140].replace(scratch, '<copy>') if viol else ''))
         sys.stdout.flush()
+        # the result is recorded next to the original evaluation (tools/seed_table.py prefers it): the checks have been
+        # strengthened since many of the seeds were first evaluated
+        import subprocess as _sp
+        head = _sp.run(['git', '-C', '/repo', 'rev-parse', '--short', 'HEAD'], capture_output=True, text=True).stdout.strip()
+        meta['recheck'] = {'repo_head': head, 'rc': rcs, 'caught': ok, 'violations': [v.replace(scratch, '<copy>')[:300] for v in viol[:3]],
+                           'failed': failed[:4]}
+        json.dump(meta, open(os.path.join(d, 'meta.json'), 'w'), indent=1)
         if valid and not ok:
             bad += 1
         if not valid and ok:
